@@ -47,6 +47,6 @@ proof fn vacuity_pre(f: v1::Function, g: v1::Function, x: Map<u64, F64>) require
             'T4: prost accessor sense(): code -> variant',
             'T4 std helpers: Iterator::min_by (least element for every transitive relation the comparator refines), f64::total_cmp (strict order on finite values), HashMap::iter().filter_map(C).collect(), BTreeSet::into_iter, bool::then_some',
         ],
-        assumptions=common.A1,
+        assumptions=common.A1 + common.A_COO,
         not_covered=['SampleSet::best_feasible / best_feasible_unrelaxed: they assemble the Solution through SampleSet::get (C06 territory); bounded stand-in only'],
     )
